@@ -238,7 +238,8 @@ def random_cases(rng, tier):
         tb = rng.choice([0, rng.randint(1, 12), rng.randint(1, 12), 300])
         if g["type"] in ("TimeStamp", "TimeInterval", "BoundingBox") and rng.random() < 0.3:
             tb = rng.randint(80_000_000, 300_000_000)     # a time buffer longer than MAX_FREQUENCY seconds
-        fb = rng.choice([0, rng.randint(1, 200), rng.randint(1, 200), 2 * FMAXS])
+        fb = rng.choice([0, rng.randint(1, 600), rng.randint(1, 600), 2 * FMAXS])    # every integer 1..600: about 1 in 50 is a
+        #                                       buffer b with MAX_FREQUENCY * (1/b) / (1/b) != MAX_FREQUENCY in doubles
         mode = rng.random()
         if mode < 0.5:                                   # both axes grow by a comfortable factor (or stay 0)
             b2 = [tb * rng.randint(2, 3), fb * rng.randint(2, 3)] if fb < FMAXS else [tb * 2, fb]
